@@ -3,6 +3,7 @@
 P="$1"; ID="$2"; TIER="${3:-quick}"
 cd /repo || exit 2
 if [ -n "$(git status --porcelain --untracked-files=no)" ]; then echo "/repo not clean"; exit 2; fi
+case "$P" in /*) ;; *) P="/verif/$P";; esac
 if ! git apply "$P" 2>/dev/null; then
   if ! patch -p1 --fuzz=3 -s < "$P"; then echo "PATCH DOES NOT APPLY: $P"; git checkout -- .; git clean -fdq -e target; exit 3; fi
 fi
